@@ -119,6 +119,10 @@ def check(ctx: Ctx):
     c03._guarded(ctx, "R09.1", c09.check_codec_width)
     c03._guarded(ctx, "R09.1", c09.check_codec_width_relational)
     c03._guarded(ctx, "R09.2", c09.check_crop_width)
+    from . import c10
+
+    c03._guarded(ctx, "R10.3", c10.check_crop_mask)
+    c03._guarded(ctx, "R05.6", c05.check_semantic_dtype)
     c04.check_chained_replacement(ctx)
     c03._guarded(ctx, "R04.2", c04.check_relabel)
     c07.check_no_wraparound(ctx)
